@@ -387,7 +387,8 @@ class World:
         self.disk = {}
         self.abort_reason = None
         self.last_upg = 0
-        self.approvals = []      # free-play flag at the time each pending player add was approved
+        self.approvals = []      # grants of player_add_request not yet bound to a player object
+        self.bound = []          # (player object, grant) of adds in flight
 
     # -- configuration ------------------------------------------------------------------------
     def patches(self):
@@ -483,6 +484,9 @@ class World:
         ev.add_handler("mode_game_stopped", self.h_game_stopped, priority=lo)
         ev.add_handler("ball_starting", self.h_ball_starting, priority=hi)
         self.held = []
+        self.approvals = []
+        self.bound = []
+        ev.add_handler("player_adding", self.h_adding_bind, priority=hi)
         if self.cfg.get("hold", "none") != "none":
             ev.add_handler("player_adding", self.h_hold_adding, priority=1)
         ctx.log("boot", self.units(), self.upg(), self.sut_free(), t=sim.now)
@@ -614,19 +618,28 @@ class World:
                    "deadlines full=%s frac=%s" % (prev, new, t, L.B, sorted_dl(L.dl["full"]), sorted_dl(L.dl["frac"])))
         L.B = b_new
 
+    def pending_approvals(self):
+        return self.approvals + [a for _, a in self.bound]
+
     def note_clear(self):
-        for a in self.approvals:
+        for a in self.pending_approvals():
             a["cleared"] = True
             a["gain"] = False
 
     def note_gain(self):
-        for a in self.approvals:
+        for a in self.pending_approvals():
             if a["cleared"]:
                 a["gain"] = True
 
+    def h_adding_bind(self, player=None, **kwargs):
+        """Observer: the game created the player for the request that was granted last; remember which grant
+        belongs to which player (an add can be held for a long time, games can end and start meanwhile)."""
+        appr = self.approvals.pop(0) if self.approvals else {"free": self.L.free, "cleared": False, "gain": False}
+        self.bound.append((player, appr))
+
     def h_pre(self, _k=None, **kwargs):
         self.ctx.log("pre", _k, t=self.sim.now)
-        self.cause.append([_k, dict((k, v) for k, v in kwargs.items() if k in ("n",)), [], self.units()])
+        self.cause.append([_k, dict((k, v) for k, v in kwargs.items() if k in ("n", "player")), [], self.units()])
 
     def h_post(self, _k=None, **kwargs):
         if not self.cause or self.cause[-1][0] != _k:
@@ -657,7 +670,6 @@ class World:
         self.ctx.log("game_active", 1, t=self.sim.now)
         L.game_active = True
         self.players = 0
-        self.approvals = []
         # relaxation: the statement does not say whether expiry timers / the tier count survive a game start
         L.dl["full"] = L.dl["full"] | {None}
         L.dl["frac"] = L.dl["frac"] | {None}
@@ -721,10 +733,30 @@ class World:
 
     def close_player_added(self, frame):
         L = self.L
+        player = frame[1].get("player")
+        appr = None
+        for i, (pl, a) in enumerate(self.bound):
+            if pl is player:
+                appr = a
+                del self.bound[i]
+                break
+        if appr is None:
+            appr = {"free": L.free, "cleared": False, "gain": False}
+        game = self.m.game
+        if game is None or not any(pl is player for pl in game.player_list):
+            # player_added for a player who is in no running game (the add was held while the game ended):
+            # nobody starts playing, so nothing may be charged ("one game price per player started")
+            self.ctx.probe("added_after_game_over")
+            paid = self.cr.earnings.get("3 Total Paid Games", 0)
+            if self.upg() and (self.sut_balance() != L.B or paid != L.paid):
+                self.V("charge_without_player", "player of a game that is over",
+                       "player_added for a player whose game is over: balance %s -> %s credits, paid games audit "
+                       "%s -> %s, no game is running for that player" % (L.B, self.sut_balance(), L.paid, paid))
+                L.paid = paid
+            return
         self.players += 1
         if self.players >= 2:
             self.ctx.probe("second_player")
-        appr = self.approvals.pop(0) if self.approvals else {"free": L.free, "cleared": False, "gain": False}
         if appr["free"] and not L.free:
             # relaxation: the request was granted in free play and the operator switched to credit play
             # before the player was added: charged or not, both accepted
